@@ -1,6 +1,7 @@
 package main
 
 import (
+	"regexp"
 	"fmt"
 	"go/token"
 	"go/types"
@@ -559,6 +560,7 @@ func (fr *frame) callBySig(con *Contract, si *sigInfo, c *ssa.CallCommon, args [
 				}
 			}
 		}
+		markFreshFromEnsures(con, resFresh)
 		for i := 0; i < rs.Len(); i++ {
 			r := ft.freshInput(fmt.Sprintf("r$%s$%d", si.name, i), rs.At(i).Type())
 			names := []string{fmt.Sprintf("result%d", i), rs.At(i).Name()}
@@ -598,8 +600,32 @@ func (fr *frame) callBySig(con *Contract, si *sigInfo, c *ssa.CallCommon, args [
 		}
 	} else {
 		fr.havocCall(c)
+		resFresh := map[string]bool{}
+		markFreshFromEnsures(con, resFresh)
 		for i := 0; i < rs.Len(); i++ {
-			results = append(results, ft.freshInput(fmt.Sprintf("r$%s$%d", si.name, i), rs.At(i).Type()))
+			r := ft.freshInput(fmt.Sprintf("r$%s$%d", si.name, i), rs.At(i).Type())
+			names := []string{fmt.Sprintf("result%d", i), rs.At(i).Name()}
+			if i == 0 {
+				names = append(names, "result")
+			}
+			isFresh := false
+			for _, n := range names {
+				if n != "" && resFresh[n] {
+					isFresh = true
+				}
+			}
+			if isFresh && len(r.L) > 0 && r.L[0].S == SInt && (isPointer(r.T) || isSlice(r.T)) {
+				// the contract says the result is freshly allocated: it is a new reference (or nil), not an input-range one
+				isNil := ft.c.Fresh("resnil", SBool)
+				nr := *r
+				nr.L = append([]Term{}, r.L...)
+				nr.L[0] = ft.c.Define("resref", mkIte(isNil, intConst(0), ft.newRef()))
+				if isSlice(r.T) {
+					fr.assume(mkImp(isNil, mkAnd(mkEq(nr.L[2], idxInt(0)), mkEq(nr.L[3], idxInt(0)))))
+				}
+				r = &nr
+			}
+			results = append(results, r)
 		}
 	}
 	// references the callee allocates (beyond the results themselves) live in a reserved block above every
@@ -646,4 +672,20 @@ func (fr *frame) callBySig(con *Contract, si *sigInfo, c *ssa.CallCommon, args [
 		return results[0]
 	}
 	return &Val{T: rt, Tup: results}
+}
+
+
+var reFreshResult = regexp.MustCompile(`fresh\(\s*([A-Za-z_][A-Za-z0-9_]*)\s*\)`)
+
+// markFreshFromEnsures: a result that an (assumed) postcondition calls fresh(...) is modelled as a fresh reference,
+// otherwise the clause would contradict the input-range assumption on call results and make the caller vacuous.
+func markFreshFromEnsures(con *Contract, resFresh map[string]bool) {
+	for _, en := range con.Ensures {
+		if en.NoAssume {
+			continue
+		}
+		for _, m := range reFreshResult.FindAllStringSubmatch(en.Src, -1) {
+			resFresh[m[1]] = true
+		}
+	}
 }
